@@ -148,6 +148,26 @@ prop( 'C04', [ 'F-FRAG', 'F-STATUS', 'D-VALIDATE', 'W-ATTR' ],
       technique='linear normal form + algebraic identity for rounding divisions (idiom table, unrecognised form = undecided); '
                 'two-cell decision table for the completion status; must-pass-through over a statement CFG' )
 
+prop( 'C11', [ 'X-LOOKUP', 'X-FROMREGEX', 'X-TERMINAL', 'G-PRIMS' ],
+      decides='structural clauses of the translation and of its run-time lookup, each a necessary condition of "accepts exactly the '
+              'language".  X-LOOKUP (state.__getitem__, over its CFG): the transition table is consulted with the ENCODED symbol; every '
+              'path to the ANY-wildcard lookup and to the no-input lookup has first tried the exact symbol, whose KeyError falls through; '
+              'recognizers precede the wildcard; the wildcard is guarded by "an input symbol is present"; the no-input lookup is the '
+              'last, unguarded one.  X-FROMREGEX (state.from_regex): terminal = membership in fsm.finals; a state is created iff not '
+              '( loopback and not terminal and not initial ) - the registration guard is evaluated over the 8 cells of that table; '
+              'transitions out of dead states are skipped first; the per-state symbol order puts None first (the key function is '
+              'evaluated: key( None ) < key( symbol )); None becomes the ANY wildcard; every transition links states.get( next ) - the '
+              'counterpart or an explicit None for a dead target; a transition is omitted only when dead AND the wildcard already '
+              'rejects; intermediate states of multi-symbol encodings are non-terminal; the machine starts in a non-consuming copy of '
+              'the initial state.  X-TERMINAL: dfa_base.terminal equals own flag and current.terminal and not loop() on all 8 cells.  '
+              'G-PRIMS: state_input consumes exactly one symbol and appends it to <context>.input (summary re-validated).',
+      not_decided='the language equivalence itself: it is a statement about the OUTPUT of from_regex (and of the greenery library it '
+                  'translates from) for every expression and string, which only exists by running the translation; longest-prefix '
+                  'behaviour under chunking (C02 decides the chunk-independence of the runner); multi-byte expansion beyond the '
+                  'non-terminal clause.',
+      technique='must-pass-through ordering over a statement CFG (lookup precedence); decision tables evaluated three-valued over '
+                'finite boolean domains; semantic evaluation of the ordering key; AST idioms with role-following wildcards' )
+
 prop( 'C02', [ 'G-CHUNK', 'G-FRAME', 'P-ACT', 'P-ONE', 'P-CHAIN', 'R-ISO', 'N-RECV', 'R-SENT', 'R-PROGRESS', 'G-PRIMS' ],
       decides='G-CHUNK: in the stream-fed machines (enip_machine incl. enip_header; tnet_machine) no state has both an input edge and a '
               'None edge and no transition predicate inspects the source - i.e. no state\'s successor depends on whether the next byte has '
